@@ -152,23 +152,48 @@ def check_effects(ctx, r, rid="R4"):
                     bad.setdefault("correct_locale_prefix_effect#sync", "%s: context becomes %s, navigation %s, marker %s; expected locale %s and URL %s" % (case, w.ctx, [x[1] for x in navs(w)], absint.fmt(w.cells["history_changed"]), win, want))
                 elif navs(w) and navs(w)[0][2].get("replace") != B(True):
                     bad.setdefault("correct_locale_prefix_effect#replace", "%s: the corrected URL is pushed instead of replacing the history entry" % case)
-    # ---- check_history_change: back / forward
+    # ---- check_history_change: back / forward - as *histories*, with the state it shares with update_path_effect (`sync`) and with
+    # correct_locale_prefix_effect (`history_changed`): after the event the context shows the URL's locale and nothing navigates; the locale
+    # change it may have caused is not echoed back into the URL; and the user's next, genuine, switch does rewrite the URL - also when the
+    # event did not change the locale (Back / Forward inside one locale's pages)
     fn = funcs["check_history_change"]
+    upe = funcs["update_path_effect"]
     for url_loc in c14.LOCALES:
         for cur in c14.LOCALES:
             w = World(funcs, _url(url_loc, about), cur, {"sync": C("None"), "history_changed": B(False)})
             ev = w.evaluator()
             clo = ev.run_fn(fn, [A("i18n"), S("/"), A("sync"), A("history_changed")])
-            if isinstance(clo, str):
-                raise Unknown("check_history_change: " + clo)
+            eff = ev.run_fn(upe, [A("i18n"), S("/"), A("sync"), segs])
+            if isinstance(clo, str) or isinstance(eff, str):
+                raise Unknown("check_history_change / update_path_effect: %s" % (clo if isinstance(clo, str) else eff))
             try:
                 ev.apply(clo, [A("popstate")])
             except Unknown as u:
                 raise Unknown("check_history_change closure: %s" % u)
             n += 1
-            if w.ctx != url_loc or w.cells["sync"] != C("Some", S(url_loc)) or w.cells["history_changed"] != B(True) or navs(w):
-                bad.setdefault("check_history_change", "back / forward to %s with context %s: context becomes %s, sync %s, marker %s, navigation %s; expected the URL's locale %s in the context and in `sync`, the marker set, no navigation"
-                               % (w.url, cur, w.ctx, absint.fmt(w.cells["sync"]), absint.fmt(w.cells["history_changed"]), navs(w), url_loc))
+            case = "back / forward to %s with context %s" % (w.url, cur)
+            if w.ctx != url_loc or navs(w):
+                bad.setdefault("check_history_change", "%s: context becomes %s, navigation %s; expected the URL's locale %s in the context, no navigation" % (case, w.ctx, navs(w), url_loc))
+                continue
+            remembered = cur
+            try:
+                if url_loc != cur:
+                    # the effect runs because the locale changed: it must take it for what it is, the echo of the history change
+                    got = ev.apply(eff, [C("Some", S(cur))])
+                    if navs(w):
+                        bad.setdefault("check_history_change#echo", "%s: the locale change made by the history event is written back into the URL (%s)" % (case, navs(w)[0][1]))
+                        continue
+                    remembered = got[1] if got[0] == "str" else url_loc
+                # the user now picks another locale
+                other = [l_ for l_ in c14.LOCALES if l_ != w.ctx][0]
+                w.ctx = other
+                ev.apply(eff, [C("Some", S(remembered))])
+            except Unknown as u:
+                raise Unknown("update_path_effect after a history event: %s" % u)
+            n += 1
+            if [x[1] for x in navs(w)] != [_url(other, about)]:
+                bad.setdefault("check_history_change#next-switch", "%s, then the user switches to %s: navigation %s, expected the URL rewritten to %s - a marker left armed by the history event makes the "
+                               "genuine switch look like its echo" % (case, other, [x[1] for x in navs(w)], _url(other, about)))
     # ---- maybe_redirect: server side, a URL without prefix while the resolved locale is not the default
     fn = funcs["maybe_redirect"]
     for loc in c14.LOCALES:
